@@ -349,9 +349,9 @@ theorem sort_builtin (sorter : List Term → List Term) (xs : List Term) (v : Na
     Order.sort sorter (Term.list xs) (.var v) = .ok (Term.list (Order.set sorter xs)) ∧
     Order.sort sorter (Term.list xs (.var v)) (.var v) = .error instErr := by
   constructor
-  · simp only [Order.sort, listElems, spine_list_nil, bind, Except.bind, pure, Except.pure]
+  · simp only [Order.sort, listElems, listEnd, spine_list_nil, bind, Except.bind, pure, Except.pure]
     simp [Term.nilT, Term.spine]
-  · simp [Order.sort, listElems, spine_list_var, bind, Except.bind]
+  · simp [Order.sort, listElems, listEnd, spine_list_var, bind, Except.bind]
 
 /-- keysort/2 on a proper list of pairs with an unbound second argument answers the pairs as
     arranged by the stable sorter; an unbound element is an instantiation error and any other
@@ -362,10 +362,10 @@ theorem keysort_builtin (sorter : List Term → List Term) (xs : List Term) (v :
     (∀ e, checkPairs xs = .error e → Order.keysort sorter (Term.list xs) (.var v) = .error e) := by
   constructor
   · intro h
-    simp only [Order.keysort, listElems, spine_list_nil, bind, Except.bind, pure, Except.pure]
+    simp only [Order.keysort, listEnd, spine_list_nil, bind, Except.bind, pure, Except.pure]
     simp [Term.nilT, h]
   · intro e h
-    simp only [Order.keysort, listElems, spine_list_nil, bind, Except.bind, pure, Except.pure]
+    simp only [Order.keysort, listEnd, spine_list_nil, bind, Except.bind, pure, Except.pure]
     simp [Term.nilT, h]
 
 /-! ### non-vacuity -/
